@@ -232,7 +232,7 @@ int main(int argc, char **argv) {
     }
     int fullmax = mc_thorough ? 4 : 3;
     snprintf(mc_bounds, sizeof mc_bounds,
-             "full lattice on FULL(0..%d); %s lattice on FINE level %d and on 2 rings around the 20 face centres at all 16 resolutions%s; %d "
+             "full lattice on FULL(0..%d); %s lattice on FINE level %d (not neighbour-closed) and on 2 rings around the 20 face centres at all 16 resolutions%s; %d "
              "special points x 16 res x 8 directions x 10^0..-16; DBLS^2 x INTS argument classes",
              fullmax, mc_thorough ? "full" : "thinned (odd k)", mc_thorough ? 1 : 2, mc_thorough ? "; thinned lattice on FULL(5)" : "", g_nspecial);
     mc_phase("argument classes", ph_args, NULL);
@@ -240,17 +240,6 @@ int main(int argc, char **argv) {
     for (int r = 0; r <= fullmax; r++) dom_full(r, &g_cells);
     g_thin = 0;
     mc_phase("lattice on complete resolutions", ph_cells, NULL);
-    g_cells.n = 0;
-    for (int r = 0; r <= 15; r++) {
-        if (mc_thorough)
-            dom_fine(r, 1, &g_cells);
-        else
-            dom_fine_raw(r, 2, &g_cells);
-        dom_face(r, 2, &g_cells);
-    }
-    uv_sortuniq(&g_cells);
-    g_thin = !mc_thorough;
-    mc_phase("lattice on fine families", ph_cells, NULL);
     mc_phase("lattice on cells with an exactly axis-parallel edge (res 12-15, directed search)", ph_axis, NULL);
     if (mc_thorough) {
         g_cells.n = 0;
@@ -258,5 +247,14 @@ int main(int argc, char **argv) {
         g_thin = 1;
         mc_phase("thinned lattice on FULL(5)", ph_cells, NULL);
     }
+    // the largest family last, so that a deadline cuts only it short
+    g_cells.n = 0;
+    for (int r = 0; r <= 15; r++) {
+        dom_fine_raw(r, mc_thorough ? 1 : 2, &g_cells);
+        dom_face(r, 2, &g_cells);
+    }
+    uv_sortuniq(&g_cells);
+    g_thin = !mc_thorough;
+    mc_phase("lattice on fine families", ph_cells, NULL);
     return mc_finish();
 }
